@@ -189,7 +189,7 @@ def gen_world(rng, n_types=None, n_preds=None, n_funcs=None, n_consts=None, n_ob
         nf = n_funcs if n_funcs is not None else rng.randint(1, 3)
         fnames = ["f", "g-h", "cost"]
         for i in range(nf):
-            ar = rng.choice([0, 1, 1, 2])
+            ar = rng.choice([0, 1, 1, 2] + ([3, 3] if max_arity >= 3 else []))
             ar = min(ar, max_arity)
             w.funcs[fnames[i]] = [(f"?a{j}", rng.choice(pool)) for j in range(ar)]
     return w
